@@ -191,6 +191,94 @@ def run(ctx):
             ctx.fail(f"exception-reuse-{type(e).__name__}", f"raised {type(e).__name__}: {e}", desc)
     ctx.streams["reused processors (loss parameters changed in place)"] = len(re_cases)
 
+    # ---- inputs whose photons carry distinguishability tags, through every entry point
+    # (groups of differently tagged photons evolve and are lost independently: the expected distribution is the
+    #  convolution of the per-group distributions of the enlarged lossless circuit, each from the model)
+    nan_ = ctx.n(40, 400)
+    an_cases = []
+    for i in range(nan_):
+        r = rng.fork(("annot", i))
+        m = r.rint(2, 3)
+        nlc = r.rint(1, 2)
+        ncomp = r.rint(1, 3)
+        slots = r.shuffle(["U"] * ncomp + ["L"] * nlc)
+        comps = []
+        for sl in slots:
+            if sl == "U":
+                lf = gen.rand_leaf(r, m)
+                comps.append(("U", r.rint(0, m - lf.k), lf))
+            else:
+                comps.append(("L", r.rint(0, m - 1), rand_loss(r)))
+        ngroups = r.rint(2, 3)
+        groups = []
+        for g in range(ngroups):
+            st = [0] * m
+            for _ in range(1 if (g > 0 or r.chance(2, 3)) else 2):
+                st[r.below(m)] += 1
+            groups.append(st)
+        an_cases.append((m, comps, groups))
+    reqs, where = [], []
+    for ci, (m, comps, groups) in enumerate(an_cases):
+        enc = [[0, off, lf.k, lf.U] if k == "U" else [1, off, QI(lf[0]), QI(lf[1])] for k, off, lf in comps]
+        for gi, g in enumerate(groups):
+            reqs.append((70, [m, enc, g]))
+            where.append((ci, gi))
+    outs_an = ctx.model.run(reqs)
+    per_group = {}
+    for (ci, gi), out in zip(where, outs_an):
+        per_group[(ci, gi)] = {tuple(e[0]): float(un_q(e[1])) for e in out[1]}
+    for ci, (m, comps, groups) in enumerate(an_cases):
+        exp = {tuple([0] * m): 1.0}
+        for gi in range(len(groups)):
+            nxt = {}
+            for a, pa in exp.items():
+                for b_, pb in per_group[(ci, gi)].items():
+                    k_ = tuple(x + y for x, y in zip(a, b_))
+                    nxt[k_] = nxt.get(k_, 0.0) + pa * pb
+            exp = nxt
+        text = "|" + ",".join("".join("{_:%d}" % gi for gi, g in enumerate(groups) for _ in range(g[mode])) or "0"
+                              for mode in range(m)) + ">"
+        desc = {"m": m, "input": text,
+                "components": [f"add({off}, {lf.describe()})" if k == "U" else f"add({off}, LC({float(lf[1] ** 2)!r}))"
+                               for k, off, lf in comps]}
+        interfere = sum(1 for mode in range(m) if sum(g[mode] for g in groups) > 0) >= 2
+        ctx.case(["annotated", str(desc)], interfere, desc)
+        ctx.count("annotated-input")
+        try:
+            state = pcvl.BasicState(text)
+            built = [(off, lf.build() if k == "U" else LC(float(lf[1] ** 2))) for k, off, lf in comps]
+            p = pcvl.Processor("SLOS", m)
+            for off, c_ in built:
+                p.add(off, c_)
+            p.min_detected_photons_filter(0)
+            # (a) the simulator-level entry point with a Fock state
+            ls = LossSimulator(Simulator(pcvl.SLOSBackend()))
+            ls.set_min_detected_photons_filter(0)
+            ls.set_precision(0)
+            ls.set_circuit(p.components, m)
+            got = {tuple(k): float(v) for k, v in ls.probs(state).items()}
+            if not same(exp, got):
+                ctx.fail("loss-annotated-simulator-probs", "LossSimulator.probs(BasicState) with tagged photons differs from the "
+                         "convolution of the groups", desc, str(sorted(exp.items())), str(sorted(got.items())))
+                continue
+            # (b) the same through probs_svd
+            res = ls.probs_svd(pcvl.SVDistribution(state))
+            got = {tuple(k): float(v) for k, v in res["results"].items()}
+            if not same(exp, got):
+                ctx.fail("loss-annotated-simulator-probs_svd", "LossSimulator.probs_svd with tagged photons differs from the "
+                         "convolution of the groups", desc, str(sorted(exp.items())), str(sorted(got.items())))
+                continue
+            # (c) the processor (a tagged state is given as a one-member mixture: with_input(BasicState) would hand the
+            #     state to the source model, which assigns its own tags)
+            p.with_input(pcvl.SVDistribution(state))
+            got = {tuple(k): float(v) for k, v in p.probs(precision=0)["results"].items()}
+            if not same(exp, got):
+                ctx.fail("loss-annotated-processor", "Processor.probs with tagged photons differs from the convolution of the groups",
+                         desc, str(sorted(exp.items())), str(sorted(got.items())))
+        except Exception as e:
+            ctx.fail(f"exception-annotated-{type(e).__name__}", f"raised {type(e).__name__}: {e}", desc)
+    ctx.streams["tagged inputs (simulator probs / probs_svd / processor)"] = len(an_cases)
+
     # ---- leading losses == independent thinning of the input (model vs model, and implementation)
     thin_cases = [(m, comps, s) for m, comps, s in cases
                   if all(c[0] == "L" for c in comps[:sum(1 for c in comps if c[0] == "L")])]
